@@ -12,9 +12,11 @@ WEAK_DES = [bytes.fromhex(x) for x in (
 def key(rng, n):
     """n-byte key with structure: random / all equal bytes / repeated 8-byte component (K1K2K1, KKK) /
     parity-adjusted / containing 0x00 and 0xFF"""
-    k = rng.randrange(12)
+    k = rng.randrange(14)
     if k <= 3 or n < 8:
         return rng.randbytes(n)
+    if k >= 12:
+        return text_like_bytes(rng, n)
     if k >= 10:
         # DES weak and semi-weak keys as components (legal key material: every standard defines the result for them)
         parts = [rng.choice(WEAK_DES) if rng.random() < 0.7 else rng.randbytes(8) for _ in range(4)]
@@ -95,3 +97,20 @@ def special_bytes(rng, n, like=None):
         z = rng.randrange(0, min(n, 16))
         return rng.randbytes(n - z - 1) + b"\x80" + bytes(z)
     return rng.randbytes(n)
+
+
+def text_like_bytes(rng, n):
+    """binary values that happen to be text: only ASCII hex characters (upper / lower / mixed), only decimal digits,
+    one repeated character, printable ASCII - a value that is also valid hex / decimal text of half its size"""
+    k = rng.randrange(6)
+    if k == 0:
+        return bytes(rng.choice(b"0123456789ABCDEF") for _ in range(n))
+    if k == 1:
+        return bytes(rng.choice(b"0123456789abcdef") for _ in range(n))
+    if k == 2:
+        return bytes(rng.choice(b"0123456789") for _ in range(n))
+    if k == 3:
+        return bytes([rng.choice(b"0123456789ABCDEFabcdef")]) * n
+    if k == 4:
+        return (b"0123456789ABCDEF" * (n // 16 + 1))[:n]
+    return bytes(rng.randrange(32, 127) for _ in range(n))
